@@ -116,7 +116,7 @@ def run(ctx):
     ctx.assumptions = ['trees whose layout has duplicate/conflicting entries are excluded from the by-construction oracle (model agreement still applies)']
     drv = common.Driver()
     try:
-        n = 150 if ctx.tier == 'quick' else 4000
+        n = 400 if ctx.tier == 'quick' else 4000
         for i in range(n):
             one_tree(ctx, drv)
     finally:
